@@ -21,6 +21,46 @@ CLAIMED["C08"] = (
     "Trusted: go/ssa lowering, govc translation, solvers; assumed contracts of the gRPC stubs (nil error => non-nil reply; elements of repeated fields non-nil; a non-nil error has a non-OK code), net/http, json; logInfo is immutable after construction (checked syntactically: frame:stable). Not decided: what net/http does with a half-written body; add-chain handler internals are claimed under C01 only when discharged.",
 )
 
+
+COMMON_TRUST = "Trusted: go/types+go/ssa lowering, the govc SSA->SMT translation (guarded by satisfiable-path covers and a must-fail mutant corpus), solver soundness, the assumed contracts listed per run in evidence.trusted_base (standard library, gRPC stubs, reflective codecs, crypto), and the purity of logging/metrics callees. Callees without contract are abstracted (unconstrained results, reachable memory havocked). Concurrency and termination are not reasoned about."
+
+CLAIMED["C01"] = (
+    "Deductive proof of the add-chain data flow: the entry handed to the backend is built from the validated chain with the endpoint's entry type and the clock reading in milliseconds; the leaf queued is the one built from that entry (TLS encoding, identity hash = SHA-256 of the submitted leaf certificate, extra data = whole validated chain); the SCT is built from the leaf the backend RETURNED (duplicate submissions repeat the stored timestamp), signed over the RFC 6962 signature input of that leaf (field by field), carries SHA-256 of the DER SubjectPublicKeyInfo of the log key as log ID, and IssueSCT / 200 happen only after all of it succeeded. Precertificate entries: issuer key hash of the final issuer and de-poisoned TBS also with a pre-issuer.",
+    COMMON_TRUST + " Not decided here: that the signature verifies (cryptography) and byte-exactness of the reflective TLS/ASN.1 encoders.",
+)
+CLAIMED["C02"] = (
+    "Deductive proof of the chain admission control flow: every submitted certificate is parsed in order, the leaf filters (NotAfter window start <= t < limit over abstract instants, expired/unexpired rejection, CA-only) are established before Verify is called on the submitted leaf with the documented option set, an admitted path is one of Verify's results that passes the order check; the order check is pointwise certificate equality with the same or one extra (root) element; precertificate detection is exactly 'first poison extension is critical with ASN.1 NULL', malformed poison is always an error, and the leaf kind must match the endpoint.",
+    COMMON_TRUST + " Assumed: x509.Certificate.Verify (path building, signatures: cryptography and recursion over pools). Not proved in this revision: the forbidden-extension and required-EKU filter clauses (map-heavy loops).",
+)
+CLAIMED["C03"] = (
+    "Deductive proof of the TBSCertificate rewriting: removeExtension succeeds only with exactly one matching extension (absent and duplicate are errors), removes that one keeping all others in order and every other field, and clears Raw so the structure is re-encoded; BuildPrecertTBS replaces the issuer name only with a pre-issuer and treats the authority key identifier by the four-way case analysis (replaced in place keeping id and criticality / removed / appended / untouched); the precertificate route and the embedded-SCT route build the same leaf shape from the resulting TBS bytes and the final issuer's key hash.",
+    COMMON_TRUST + " Not decided here: that asn1.Marshal(asn1.Unmarshal(d)) preserves every other DER byte (reflective encoder) and the SCT-list extension codec (not yet under contract).",
+)
+CLAIMED["C04"] = (
+    "Deductive proof, for the non-reflective serialisation code, that the structures handed to the TLS encoder carry exactly the RFC 6962 fields: SCT signature input (version, signature type 0, timestamp, entry type, variant, extensions of the SCT), STH signature input (version, signature type 1, timestamp, tree size, root hash), leaf hash input (0x00 prefix then the leaf encoding), unknown versions/types refused; plus the numeric layer of the TLS codec (byte counts, bounds checks, big-endian fixed-width decoding at the current offset).",
+    COMMON_TRUST + " Not decided here: composition of the per-field encodings by the reflective struct walker, JSON/base64 conversions, the static layout table of DESIGN section 4 (not built in this revision).",
+)
+CLAIMED["C06"] = (
+    "Deductive proof that the front end adds nothing and swaps nothing: the STH served reports the backend root's size, hash and millisecond timestamp and is signed (or served from a cache keyed by the exact signed bytes); consistency and inclusion requests carry first/second, hash and tree size unswapped and the proofs relayed are the backend's (first proof, 32-byte hashes); get-entry-and-proof relays leaf and proof bytes; the SCT of a duplicate submission is built from the stored leaf; frozen and mirror getters serve only their STH.",
+    COMMON_TRUST + " Not decided here: every clause over histories and schedules (append-only, linked STHs, single index): these are properties of the Trillian backend and of time. Client side (client/logclient.go) not yet under contract.",
+)
+CLAIMED["C09"] = (
+    "Deductive proof for the TLS presentation decoder: the whole recursive decoder stays inside its input (offsets between initOffset and len(data) at every return, every index and slice in bounds, allocations no larger than the remaining input), each fixed-width arm reads big-endian at the current offset and consumes its width, enum and length prefixes go through the same bounds check, which accepts exactly the values that fit the declared width (1..8 bytes) and the declared min/max; tag parsing yields sizes in 1..8.",
+    COMMON_TRUST + " Assumed: reflect implements Go's type/value semantics. Not decided here: the induction over all type shapes (bijection for arbitrary nested types) and the encoder side (marshalField) which is not yet under contract.",
+)
+CLAIMED["C11"] = (
+    "Deductive proof of error coherence of the lenient X.509 certificate parser: every return of ParseCertificate and parseCertificate is (object, nil | NonFatalErrors) or (nil, fatal-class error); IsFatal classifies nil and NonFatalErrors as non-fatal and everything else as fatal; a strict-decode failure rescued by the lax retry is recorded, the lax retry runs on the same input and target; trailing data is fatal; a SAN extension with any parsed name is not reported as unhandled.",
+    COMMON_TRUST + " Trusted (contract without verified body): forEachSAN and the getValues closure (higher-order helpers). Not decided here: totality (no-panic) of the helper parsers, field-level agreement with crypto/x509, ParseCertificates/CRL/CSR/key parsers (not yet under contract).",
+)
+CLAIMED["C13"] = (
+    "Deductive proof of the retry policy per attempt: success is returned only for a 200 POST response whose body parsed (a response whose request method is no longer POST is an error); transport/parse errors back off without override; 408 retries without touching the back-off; 429/503 hand the server's Retry-After (seconds, exactly, saturated at the largest representable duration; or HTTP date) to the back-off; every other status is returned at once with status and body; context errors are returned, not retried. Back-off object: multiplier capped at 8, wait = 1s<<(m-1) <= 128 s, notBefore never earlier than a clock reading of the call plus the server's Retry-After, never extended without a server request; jitter < 250 ms.",
+    COMMON_TRUST + " Instants are abstract (monotonic clock reading and Location ignored; time.Now readings non-decreasing). Not decided here: wall-clock promptness, concurrent submissions sharing the back-off, liveness.",
+)
+CLAIMED["C14"] = (
+    "Deductive proof for the external issuance-chain store: add returns the SHA-256 of exactly the chain bytes and stores them unless cached, errors give no hash; getByHash returns the cache answer as is or else the storage answer, propagating errors; the indirect leaf builder embeds the hash of the marshalled chain after the leaf; FixLogLeaf tries the two hash layouts then the two full-chain layouts on the stored bytes, re-inflates from the looked-up chain (no trailing data, decode errors returned), leaves extra_data untouched on every error path and for full-chain layouts, errors on unknown layouts, and writes nothing but leaf.ExtraData; lemma: no byte string is both a full-chain and a hash layout.",
+    COMMON_TRUST + " Assumed: storage FindByKey returns what was Added, cache Get returns nil or what was Set; TLS/ASN.1 codecs. Not decided here: interleavings with the detached cache-fill goroutine, expiry/eviction timing, the generic LRU wrapper.",
+)
+
 NOT_YET = "contracts for this property are not yet discharged by the generator in this revision; no other technique is substituted"
 NOT_APPLICABLE = {}
 
